@@ -199,10 +199,10 @@ Proof.
   - intros a _. destruct (list_eq_dec N.eq_dec a alh); auto.
 Qed.
 
-Theorem read_tx_at_no_panic chk ns mk txlog off size : read_tx_at H chk ns mk txlog off size <> Panic.
+Theorem read_tx_at_no_panic chk ns mk txlog off size id : read_tx_at H chk ns mk txlog off size id <> Panic.
 Proof.
-  change (np (read_tx_at H chk ns mk txlog off size)). unfold read_tx_at.
-  apply np_bind; [apply read_tx_no_panic|]. intros [[t a] r] _. auto.
+  change (np (read_tx_at H chk ns mk txlog off size id)). unfold read_tx_at.
+  apply np_bind; [apply read_tx_no_panic|]. intros [[t a] r] _. destruct (_ =? _); auto.
 Qed.
 
 (* values: a store without embedded values and with MaxIOConcurrency = 1 has its one value log
